@@ -80,6 +80,10 @@ type Case struct {
 	Flights []Flight `json:"flights,omitempty"`
 	Order   []int    `json:"order,omitempty"` // release order of the parked flights (indices into Flights)
 	Sched   string   `json:"sched,omitempty"` // closefirst | respfirst | mid
+	// Burst: that many further independent requests (clones of / failing walks
+	// from a valid fid to fresh fid numbers) are written in one piece right
+	// before the cut, so they execute while the disconnect is handled.
+	Burst int `json:"burst,omitempty"`
 	// ufs variant
 	Ops  []UOp `json:"ops,omitempty"`
 	Pipe int   `json:"pipe,omitempty"` // the last Pipe complete frames are written without waiting for replies
@@ -417,6 +421,18 @@ func TestPropDisconnect(t *testing.T) {
 		genHistory(t, c, 10)
 		c.Cut = drawCut(t, c.frames())
 		genFlights(t, c, 4, false)
+		if rapid.IntRange(0, 9).Draw(t, "burst?") == 0 {
+			c.Burst = rapid.IntRange(20, 200).Draw(t, "burst")
+			switch {
+			case hx.IsKnown(FindCloseVsInflight):
+				// the unlocked walk over the fid table can kill the process
+				c.Burst = 0
+				hx.Excluded(FindCloseVsInflight)
+			case hx.IsKnown(FindRespondBlocks) && c.Maxpend == 0:
+				c.Burst = 0
+				hx.Excluded(FindRespondBlocks)
+			}
+		}
 		orders := [][]int{c.Order}
 		if n := len(c.Flights); n >= 2 && n <= 3 {
 			orders = perms(n)
